@@ -167,6 +167,8 @@ def _repair_worker(task):
             why = None
             for st, (k, v) in res:
                 I.st = st
+                if k == "abort":
+                    raise AnalysisError(f"pattern {e}: {v}")
                 if k != "ok":
                     why = f"{k}: {v}"
                     break
